@@ -92,10 +92,10 @@ def evaluate(ck, vecs, h, use_bash=True):
         if v.get("corrupt"):
             spec_f = spec_f + ["corrupted"]; spec = fmt(spec_f)
         bash = None
-        if br is not None and not v["mbquirk"]:
+        if br is not None and not v["bashquirk"] and not v.get("corrupt"):   # a corrupted expectation is judged against the code alone
             bash = br["out"]
         else:
-            ck.notes["bash_skipped_mbquirk"] = ck.notes.get("bash_skipped_mbquirk", 0) + 1
+            ck.notes["bash_skipped_bashquirk"] = ck.notes.get("bash_skipped_bashquirk", 0) + 1
         if v["nontrivial"]:
             ck.cov["distinct_nontrivial"] += 1
         where = describe(v)
@@ -131,24 +131,46 @@ def evaluate(ck, vecs, h, use_bash=True):
             ck.sample({"script": body(v), "spec": spec, "interp": ir.get("out"), "bash": bash}, cap=4)
 
 
+def vec_id(v):
+    return json.dumps([v["toks"], v["ifs"], v["v"], v["w"], v["params"]])
+
+
 def run(ck):
     h = vlib.build_harness("fields")
+    quick = ck.tier == "quick"
     cfg = "ShFields.%s.cfg" % ck.tier
-    t = vlib.run_tlc("ShFields", cfg, workers=8 if ck.tier == "quick" else 16, timeout=1500)
+    t = vlib.run_tlc("ShFields", cfg, workers=8 if quick else 16, timeout=3000)
     ck.add_tlc(t)
     if not t.ok:
         raise vlib.Inconclusive("ShFields: the contract model violates its own laws:\n" + (t.violation or t.raw_tail))
     vecs = t.vecs.get("VEC", [])
-    ck.notes["vectors"] = len(vecs)
+    ck.notes["vectors_exhaustive"] = len(vecs)
+    # seeded random longer words from the same Next (words of weight 4..6, all menus)
+    nsim = 300 if quick else 3000
+    ts = vlib.run_tlc("ShFields", "ShFields.sim.cfg", simulate=nsim, depth=16, seed=ck.seed, timeout=3000)
+    ck.add_tlc(ts)
+    if not ts.ok:
+        raise vlib.Inconclusive("ShFields (simulation): the contract model violates its own laws:\n" + (ts.violation or ts.raw_tail))
+    seen = set()
+    sim = []
+    for v in ts.vecs.get("VEC", []):
+        k = vec_id(v)
+        if k not in seen:
+            seen.add(k); sim.append(v)
+    ck.notes["vectors_simulated"] = len(sim)
     ck.cov["exhaustive"] = True
     ck.cov["rule"] = ("every word within the token bound x every menu environment, plus every raw value up to the "
-                      "length bound for single-expansion words (TLC BFS, one vector per complete state); each vector "
-                      "= 2 evaluations (interp, expand.Fields), both also compared with bash; non-trivial = the spec "
+                      "length bound for single-expansion words (TLC BFS, one vector per complete state), plus distinct "
+                      "vectors of seeded -simulate runs with words of weight 4..6; each vector = 2 evaluations (interp, "
+                      "expand.Fields), both also compared with bash; distinct_nontrivial = vectors for which the spec "
                       "requires a number of fields other than 1")
     ck.assumptions += ["bash 5.2.15 in LC_ALL=C.utf8 as the reference shell",
-                       "vectors where IFS white space precedes a multi-byte IFS character are compared with the spec "
-                       "only (bash does not absorb the white space there; counted in bash_skipped_mbquirk)"]
-    evaluate(ck, vecs, h)
+                       "vectors that hit one of the three bash defects (ShFields!BashQuirk) "
+                       "are compared with the spec only (counted in bash_skipped_bashquirk)",
+                       "command substitutions are `$(printf %s \"$v\")` only"]
+    allv = vecs + sim
+    for o in range(0, len(allv), 60000):
+        evaluate(ck, allv[o:o + 60000], h)
 
 
 def replay(ck, rec):
